@@ -372,10 +372,17 @@ func runC04(c *core.Ctx) core.Meta {
 	// VOP3b
 	if fd := findFuncDecl(p, "Disassembler.isVOP3bOpcode"); fd != nil {
 		vop3b := map[int64]bool{}
-		cases, _ := SwitchCases(p, fd, "opcode")
-		for _, sc := range cases {
-			for _, v := range sc.Values {
-				vop3b[v] = true
+		if fnV := c.SSAFunc(instsPkg, "Disassembler.isVOP3bOpcode"); fnV != nil && len(fnV.Params) == 2 {
+			// decided per opcode on the SSA form, so a switch and an if chain are alike
+			for op := int64(0); op < 1024; op++ {
+				r := opPath(fnV, func(v ssa.Value) bool { return v == ssa.Value(fnV.Params[1]) }, op)
+				if !r.decided || r.ret == nil || len(r.ret.Results) != 1 {
+					t.Undecided = append(t.Undecided, fmt.Sprintf("isVOP3bOpcode(%d) could not be decided", op))
+					break
+				}
+				if k, ok := r.ret.Results[0].(*ssa.Const); ok && k.Value != nil && constant.BoolVal(k.Value) {
+					vop3b[op] = true
+				}
 			}
 		}
 		for _, r := range t.Rows {
